@@ -247,6 +247,46 @@ def check(repo: Repo, run: Run) -> None:
             run.ob("C20.S5", "arg_type_value|explicit-empty", True, f"the environment is consulted only when the value part is absent (`{good[0]}`)", mn.loc(atv))
         else:
             run.inconclusive("C20.S5", "arg_type_value", "the guard of the environment fallback was not recognised")
+    # S6: -d NAME binds each document to NAME and nothing else; the default package only stands in when neither
+    # -p nor -d was given (a package with -d makes `NAME.x` resolve inside the package first) -------------------
+    from ..core.paths import flat_conds as _fc, paths_of as _paths_of
+
+    go = mn.func("get_options") if mn.has_func("get_options") else None
+    if go is None:
+        run.inconclusive("C20.S6", "get_options", "function not found")
+    else:
+        try:
+            gpaths = _paths_of(mn, None, go)
+        except OverflowError:
+            gpaths = None
+        if gpaths is None:
+            run.inconclusive("C20.S6", "get_options", "too many paths")
+        else:
+            stores = 0
+            bad_path = None
+            for p in gpaths:
+                dflt = [(k, v) for k, v in p.env.items() if k.endswith(".package") and "." in k]
+                if not dflt:
+                    continue
+                holder = dflt[0][0].rsplit(".", 1)[0]
+                v = dflt[0][1]
+                if isinstance(v, ast.Constant) and v.value is None:
+                    continue
+                stores += 1
+                conds = _fc(p.conds)
+                holders = {holder} | ({ast.unparse(p.env[holder])} if holder in p.env else set())
+                no_doc = any((ast.unparse(t) == f"{h}.document" and not pol) or (ast.unparse(t) == f"{h}.document is None" and pol)
+                             or (ast.unparse(t) == f"{h}.document is not None" and not pol) for t, pol in conds for h in holders)
+                if not no_doc:
+                    bad_path = p
+            if stores == 0:
+                run.inconclusive("C20.S6", "get_options", "no path installs a default package (the way the default document name is chosen changed)")
+            elif bad_path is not None:
+                run.ob("C20.S6", "get_options|default-package", False,
+                       "get_options installs the default package on a path that has not found --json-document absent: with -d NAME the environment gets a package as well, "
+                       "so identifiers are looked up inside it first (`-d jq` on a list document is a TypeError that ends the stream; a document with a key of that name prints the wrong value)", mn.loc(go))
+            else:
+                run.ob("C20.S6", "get_options|default-package", True, "the default package is installed only when neither --json-package nor --json-document is given", mn.loc(go))
     # S4 -----------------------------------------------------------------
     disp = [n for n in ast.walk(main) if isinstance(n, ast.FunctionDef) and n.name == "output_display"]
     enc = [d for d in disp if "json.dumps(result_value, cls=CELJSONEncoder)" in ast.unparse(d)]
